@@ -66,6 +66,7 @@ type VCOpts struct {
 	AfterCall func(fr *Frame, ins ssa.Instruction, c *ssa.CallCommon, callee *ssa.Function, args []Val, res Val)
 	OnMakeInterface func(fr *Frame, x *ssa.MakeInterface, iv Val)
 	CheckTags map[string]bool // clause groups whose obligations this run generates (nil: the untagged, structural group only)
+	RG          bool // rely/guarantee obligations at atomic updates of cells with an rg spec
 	InlineAcrossPkgs bool
 	ProtectParams bool
 	NoContents  bool // slice/string contents are not modelled (families are havoced instead): for properties about scalar state
@@ -296,6 +297,7 @@ type Frame struct {
 	autoDrop map[string]bool
 	protected []protectedObj
 	blockReach map[*ssa.BasicBlock]string
+	lastAtomicLoad map[string]string
 }
 
 type protectedObj struct {
@@ -328,7 +330,7 @@ var frameCounter int
 func newFrame(q *Query, fn *ssa.Function, parent *Frame) *Frame {
 	frameCounter++
 	fr := &Frame{q: q, fn: fn, parent: parent, vals: map[ssa.Value]Val{}, edgeOut: map[*ssa.BasicBlock][]flow{},
-		blockReach: map[*ssa.BasicBlock]string{}, nonNilParams: map[*ssa.Parameter]bool{}, loops: map[*ssa.BasicBlock]*loopInfo{}, backEdge: map[[2]int]bool{}, callOrd: map[string]int{}, ghost: map[string]string{}}
+		blockReach: map[*ssa.BasicBlock]string{}, lastAtomicLoad: map[string]string{}, nonNilParams: map[*ssa.Parameter]bool{}, loops: map[*ssa.BasicBlock]*loopInfo{}, backEdge: map[[2]int]bool{}, callOrd: map[string]int{}, ghost: map[string]string{}}
 	if parent == nil {
 		fr.prefix = "v"
 	} else {
